@@ -159,6 +159,7 @@ class World:
         self.log = []  # (node, start, end, {kind: tuple(rids)})
         self.calls = {}  # node -> number of compute calls
         self.fault = None  # callable(node, call_index) -> None | raises
+        self.post = None  # callable(node, call_index, plugin, result, start, end) -> result (contract-violation injection)
         self.source_calls = {}
 
     def note(self, node, start, end, arrays):
@@ -169,6 +170,35 @@ class World:
 
 
 _counter = itertools.count()
+
+
+def _with_post(orig, nm, kd):
+    """wrap a generated compute so that World.post can tamper with its result (signature preserved
+    through __wrapped__, which strax's inspect.signature follows)"""
+    import functools, inspect
+
+    if inspect.isgeneratorfunction(orig):
+
+        @functools.wraps(orig)
+        def compute(self, *a, **k):
+            w = self._world
+            for j, r in enumerate(orig(self, *a, **k)):
+                if w.post is not None:
+                    r = w.post(nm, (w.calls.get(nm, 1) - 1, j), self, r, k.get("start"), k.get("end"))
+                yield r
+
+    else:
+
+        @functools.wraps(orig)
+        def compute(self, *a, **k):
+            r = orig(self, *a, **k)
+            w = self._world
+            if w.post is not None:
+                idx = k["chunk_i"] if "chunk_i" in k else (a[0] if (kd == "source" and a) else w.calls.get(nm, 1) - 1)
+                r = w.post(nm, idx, self, r, k.get("start"), k.get("end"))
+            return r
+
+    return compute
 
 
 def make_classes(spec, world, attrs=None):
@@ -276,6 +306,8 @@ def make_classes(spec, world, attrs=None):
             if k in n:
                 base_attrs[k] = n[k]
         base_attrs.update(attrs.get(nm, {}))
+        if "compute" in base_attrs:
+            base_attrs["compute"] = _with_post(base_attrs["compute"], nm, kd)
         cls = type(f"H{uid}_{nm}", bases, base_attrs)
         classes.append(cls)
     return classes
